@@ -129,6 +129,8 @@ class M:
             return f"({self.e(n.left)} {op} {self.e(n.right)})"
         if isinstance(n, ast.UnaryOp) and isinstance(n.op, ast.USub):
             return f"(-{self.e(n.operand)})"
+        if isinstance(n, ast.IfExp):
+            return f"(if {self.c(n.test)} then {self.e(n.body)} else {self.e(n.orelse)})"
         raise Untranslatable(f"expression `{s}`")
 
     def c(self, n: ast.AST) -> str:
